@@ -11,6 +11,8 @@ Proved for every payload, every split into Write calls (no bound on sizes):
   * `xerial_roundtrip_partial`  decoding the blocks that the REFERENCE reader (`Spec.parse`) finds in the
                                 writer's output gives back the payload
   * `xerial_unframed_single`    unframed mode emits exactly one block: `enc payload`
+  * `pool_inv`, `pool_no_sharing`, `close_idempotent`   pool protocol over all op sequences incl. repeated Close;
+                                `double_close_counterexample` for a Close that keeps its object (seeded C16-m2)
   * `reset_fresh`               a recycled reader/writer starts from the same state as a new one, whatever it
                                 processed before (also after a stream that ended in an error)
 Partial (kept as comment, checked by correspondence `xr`/`rt`/`in` against the real reader):
@@ -26,6 +28,7 @@ Partial (kept as comment, checked by correspondence `xr`/`rt`/`in` against the r
 gzip / lz4 / zstd: the wrappers only pool and Reset library objects — correspondence only.
 -/
 import KafkaVerif.Lemmas.Xerial
+import KafkaVerif.Lemmas.Pool
 
 namespace KV.Props.C16
 open KV KV.RW KV.Model.Xerial KV.Spec.Xerial
@@ -144,6 +147,60 @@ theorem xerial_unframed_single (c : Codec) (chunks : List Bytes) (hne : chunks.f
 the recycled object was left in (mid-stream, after an error, after EOF), Reset gives the state of a new one. -/
 theorem reset_fresh (s : Bytes) (framed : Bool) (r : Reader) (w : Writer) :
     resetReader s r = newReader s ∧ resetWriter framed w = newWriter framed := ⟨rfl, rfl⟩
+
+/-! ## pool protocol (all codecs): acquire → Reset → use → Close (idempotent) → Put -/
+
+open Model.Pool in
+/-- after EVERY sequence of NewReader/NewWriter, Close (also repeated Close of the same wrapper) and pool drops:
+no object is in the pool twice, none is in the pool while a live wrapper uses it, none is used by two wrappers -/
+theorem pool_inv (es : List PEv) (s : PState) (hf : faithful es = true) (h : run Model.Pool.init es = some s) : Inv s :=
+  inv_run es _ s hf inv_init h
+
+open Model.Pool in
+/-- two writers/readers that are open at the same time never share an object; the pool holds no duplicates and
+nothing that is in use -/
+theorem pool_no_sharing (es : List PEv) (s : PState) (hf : faithful es = true) (h : run Model.Pool.init es = some s) :
+    (live s).Nodup ∧ s.pool.Nodup ∧ ∀ x ∈ s.pool, x ∉ live s := by
+  have hi := pool_inv es s hf h
+  refine ⟨List.nodup_iff_count.mpr fun x => ?_, List.nodup_iff_count.mpr fun x => ?_, fun x hx hl => ?_⟩
+  · have := (hi x).1; unfold occ at this; omega
+  · have := (hi x).1; unfold occ at this; omega
+  · have := (hi x).1
+    have h1 : 0 < s.pool.count x := List.count_pos_iff.mpr hx
+    have h2 : 0 < (live s).count x := List.count_pos_iff.mpr hl
+    unfold occ at this; omega
+
+open Model.Pool in
+/-- `Close` is idempotent: closing a wrapper again changes nothing -/
+theorem close_idempotent (s s1 : PState) (h : Nat) (h1 : step s (.close h) = some s1) :
+    step s1 (.close h) = some s1 := by
+  simp only [step] at h1 ⊢
+  cases hg : s.handles[h]? with
+  | none => simp [hg] at h1
+  | some o =>
+    cases o with
+    | none => simp only [hg, Option.some.injEq] at h1; subst h1; simp [hg]
+    | some x =>
+      simp only [hg, Option.some.injEq] at h1; subst h1
+      have hlt : h < s.handles.length := by
+        cases Nat.lt_or_ge h s.handles.length with
+        | inl a => exact a
+        | inr b => simp [List.getElem?_eq_none b] at hg
+      have : (s.handles.set h none)[h]? = some none := by simp [List.getElem?_set, hlt]
+      simp only [this]
+
+open Model.Pool in
+/-- the seeded defect C16-m2: a Close that does not forget its object makes a second Close put the object into
+the pool twice; two writers opened next share it -/
+theorem double_close_counterexample :
+    ∃ s, run Model.Pool.init [.acquire none, .closeKeep 0, .closeKeep 0, .acquire (some 0), .acquire (some 0)] = some s
+      ∧ ¬ (live s).Nodup := by
+  refine ⟨_, rfl, ?_⟩
+  decide
+
+open Model.Pool in
+example : ∃ s, run Model.Pool.init [.acquire none, .close 0, .close 0, .acquire (some 0), .acquire none] = some s
+    ∧ (live s).Nodup := ⟨_, rfl, by decide⟩
 
 /-! hypotheses are satisfiable (identity block codec), and the reader model on concrete reference streams -/
 
